@@ -276,6 +276,8 @@ func (c *clientConn) start(f []string) string {
 		Dialer:           func(context.Context, string) (net.Conn, error) { return c.cc, nil },
 		BufferPool:       mem.NewTieredBufferPool(256, 4<<10, 16<<10, 32<<10, 1<<20), // per case: a corrupted pool must not leak into the next case
 		StaticWindowSize: true,
+		WriteBufferSize:  32 * 1024, // grpc's default (0 would make every frame write hit the conn)
+		ReadBufferSize:   32 * 1024,
 	}
 	mhl := uint32(256) // what the client is prepared to receive (framer MaxHeaderListSize)
 	opts.MaxHeaderListSize = &mhl
